@@ -79,7 +79,7 @@ def pLabeledStatement (self : Self) : P Val := do
     let _ ← expect "COLON"
     let stmt ← labelBody self defTok
     pure (mk .Default (some (← tokCoord defTok)) [.list [stmt]])
-  else parseError "Invalid labeled statement" (.text (← lexFilename))
+  else parseError "Invalid labeled statement" (← lexFileLoc)
 
 /-- `_parse_selection_statement` -/
 def pSelectionStatement (self : Self) : P Val := do
@@ -178,7 +178,7 @@ def pPragmaDirective (self : Self) : P Val := do
     let lit ← self .unifiedString
     let _ ← expect "RPAREN"
     pure (mk .Pragma (some (← tokCoord lp)) [lit])
-  else parseError "Invalid pragma" (.text (← lexFilename))
+  else parseError "Invalid pragma" (← lexFileLoc)
 
 def pPragmaListLoop (self : Self) (acc : List Val) : P (List Val) := do
   if inSet (← peekType) ["PPPRAGMA", "_PRAGMA"] then
@@ -340,22 +340,90 @@ inductive Outcome
   | fuel
   deriving Repr, Inhabited
 
-def initState (evs : List Ev) (file : String) : PState :=
-  { raw := evs, lexFile := file, buf := #[], idx := 0, scopes := [[]], lexCalls := 0, ticks := 0 }
+def initState (evs : List SEv) : PState :=
+  { raw := evs, pulled := 0, fileRef := 0, buf := #[], idx := 0, scopes := [[]], lexCalls := 0, ticks := 0 }
 
-/-- `CParser.parse` on a pre-scanned event list -/
-def parseEvents (fuel : Nat) (evs : List Ev) (file : String) : Outcome × Option PState :=
+/-- outcome of the parser core: like `Outcome` but with pseudo-coordinates -/
+inductive CoreOutcome
+  | ast (v : Val)
+  | parseError (loc : Loc) (msg : String)
+  | lexError (i : Nat)
+  | crash (k : Crash) (site : String)
+  | fuel
+  deriving Repr, Inhabited
+
+/-- `CParser.parse` as a function of the stripped event stream only -/
+def parseCore (fuel : Nat) (evs : List SEv) : CoreOutcome × Option PState :=
   let p : P Val := do
     let ext ← (do
       if (← peek).isNone then pure [] else run fuel (.translationUnitLoop []))
     match ← peek with
     | some tok => parseError ("before: " ++ tok.val) (.coord (← tokCoord tok))
     | none => pure (mk .FileAST none [.list ext])
-  match p (initState evs file) with
+  match p (initState evs) with
   | .ok v s => (.ast v, some s)
   | .err (.parse loc msg) => (.parseError loc msg, none)
+  | .err (.lex i) => (.lexError i, none)
   | .err (.crash k site) => (.crash k site, none)
   | .err .fuel => (.fuel, none)
+
+/-- what `finish` needs to know about each stripped event -/
+structure EvInfo where
+  line : Nat
+  col : Nat
+  file : String
+  msg : String
+  deriving Repr, Inhabited
+
+def stripEv : Ev → Option (SEv × EvInfo)
+  | .tok t _ file => some (.tok t.kind t.val, ⟨t.line, t.col, file, ""⟩)
+  | .err msg line col _ file => some (.err, ⟨line, col, file, msg⟩)
+  | .eof file => some (.eof, ⟨0, 0, file, ""⟩)
+  | .stuck => some (.stuck, ⟨0, 0, "", ""⟩)
+  | .dir _ _ => none
+
+def strip (evs : List Ev) : List SEv := (evs.filterMap stripEv).map (·.1)
+def infos (evs : List Ev) : Array EvInfo := ((evs.filterMap stripEv).map (·.2)).toArray
+
+def resolveFile (inf : Array EvInfo) (file0 : String) (r : Nat) : String :=
+  match r with
+  | 0 => file0
+  | k+1 => (inf[k]?.map (·.file)).getD file0
+
+def resolveCoord (inf : Array EvInfo) (file0 : String) (c : Coord) : Coord :=
+  let i := inf[c.line]?.getD default
+  ⟨resolveFile inf file0 (c.col.getD 0), i.line, some i.col⟩
+
+mutual
+def Val.mapCoords (f : Coord → Coord) : Val → Val
+  | .none => .none
+  | .str s => .str s
+  | .list vs => .list (Val.mapCoordsL f vs)
+  | .node c co fs => .node c (co.map f) (Val.mapCoordsL f fs)
+def Val.mapCoordsL (f : Coord → Coord) : List Val → List Val
+  | [] => []
+  | v :: vs => v.mapCoords f :: Val.mapCoordsL f vs
+end
+
+def resolveLoc (inf : Array EvInfo) (file0 : String) : Loc → Loc
+  | .coord c => .coord (resolveCoord inf file0 c)
+  | .fileRef r => .text (resolveFile inf file0 r)
+  | l => l
+
+/-- translate the core's pseudo-coordinates into real ones -/
+def finish (inf : Array EvInfo) (file0 : String) : CoreOutcome → Outcome
+  | .ast v => .ast (v.mapCoords (resolveCoord inf file0))
+  | .parseError loc msg => .parseError (resolveLoc inf file0 loc) msg
+  | .lexError i =>
+    let e := inf[i]?.getD default
+    .parseError (.coord ⟨e.file, e.line, some e.col⟩) e.msg
+  | .crash k site => .crash k site
+  | .fuel => .fuel
+
+/-- `CParser.parse` on a pre-scanned event list: `finish ∘ parseCore ∘ strip` -/
+def parseEvents (fuel : Nat) (evs : List Ev) (file : String) : Outcome × Option PState :=
+  let r := parseCore fuel (strip evs)
+  (finish (infos evs) file r.1, r.2)
 
 def parseText (cfg : LexCfg) (fuel : Nat) (text : String) (file : String) : Outcome × Option PState :=
   parseEvents fuel (scan cfg (fun _ => false) text.toList file) file
